@@ -257,6 +257,14 @@ def check_css_sanity(src, ctx, au):
             ctx.violation('exception', {'lang': 'css-statements', 'src': src, 'pos': pos, 'fn': 'get_css_section'}, {'exc': list(core.exc_site(r[1]))})
         elif r[1] is not None:
             s = r[1]
+            # the two helpers agree on what a declaration is: the NEXT item never lies beyond a declaration the section lists at or after the position
+            ahead = [pr for pr in (s.properties or []) if pr.name[0] >= pos]
+            nx = core.call(au.select_item_css, src, pos, False)
+            if ahead and nx[0] == 'ok':
+                ctx.mon('oracle:next-item-does-not-skip-a-listed-declaration')
+                if nx[1] is None or nx[1].start > ahead[0].name[0]:
+                    ctx.violation('select-next-skips-a-declaration', {'lang': 'css-statements', 'src': src, 'pos': pos, 'previous': False},
+                                  {'listed_declaration_at': list(ahead[0].name), 'next_item': nx[1] and [nx[1].start, nx[1].end]})
             bad = not (0 <= s.start <= s.body_start <= s.body_end <= s.end <= n)
             for pr in (s.properties or []):
                 if not (pr.name[0] <= pr.name[1] and pr.value[0] <= pr.value[1] and pr.before <= pr.name[0] and pr.value[1] <= pr.after):
